@@ -30,7 +30,10 @@ def run(chk):
         "every child that is always evaluated (both operands of non-short-circuit operators, the left operand, the predicate) and must not contain a "
         "child that is only conditionally evaluated (the right operand of `&&`/`||`/`??` unless the left kind makes it certain, either branch of `if`). R01g branch isolation while compiling: in Compiler::compile_if_statement the whole "
         "TypeState is restored to the clone taken after the predicate before the else block is compiled, and to the clone taken on entry before the "
-        "statement's own type_info is applied (so neither branch is compiled, and no result is typed, on top of the other branch's bindings). Undecided: Kind::insert/at_path/"
+        "statement's own type_info is applied (so neither branch is compiled, and no result is typed, on top of the other branch's bindings). R01h closures: a function call's closure body can "
+        "assign variables of the enclosing scope at run time, so FunctionCall::type_info has to apply (merge in) the closure block's type effects; the rule "
+        "checks the necessary condition that type_info reads `self.closure` at all. It does not on this tree — upstream's own TODO (vector#13782) — which is "
+        "recorded as a known finding with a failing program. Undecided: Kind::insert/at_path/"
         "merge (collection kinds: all objects and arrays are one abstract kind here), closure typing (upstream TODO #13782), stdlib type_defs beyond C03, "
         "operators on compile-time constants.")
     chk.assumptions += ["FunctionExpressionAdapter::type_info returns the incoming state unchanged (read once; re-checked by R01b's adapter clause)"]
@@ -84,6 +87,7 @@ def run(chk):
     rule_r01e(chk)
     rule_r01f(chk)
     rule_r01g(chk)
+    rule_r01h(chk)
 
 
 def rule_r01e(chk):
@@ -358,3 +362,39 @@ def rule_r01g(chk):
     if not ok2:
         chk.violation(rid, b.file, COMPILE_IF, "if statement typed on top of a branch state",
                       "compile_if_statement applies the statement's type_info to a state that is not the one it was entered with", detail=d2)
+
+
+FNCALL_TYPE_INFO = "<compiler::expression::function_call::FunctionCall as compiler::expression::Expression>::type_info"
+FNCALL_RESOLVE = "<compiler::expression::function_call::FunctionCall as compiler::expression::Expression>::resolve"
+
+
+def rule_r01h(chk):
+    facts = chk.facts
+    rid = "R01h"
+    chk.rule(rid, "FunctionCall::type_info takes the closure block into account (reads self.closure)", floor=1)
+    b = chk.anchor(FNCALL_TYPE_INFO, rid)
+    if b is None:
+        return
+    adt = facts.adts.get("compiler::expression::function_call::FunctionCall")
+    if not adt or "closure" not in adt["variants"][0]["fields"]:
+        chk.fail_closed(rid, "FunctionCall has no `closure` field any more: re-anchor R01h")
+        return
+    reads = []
+    for bi, si, st in b.iter_stmts():
+        rv = st["rv"]
+        places = []
+        if rv["k"] in ("use", "cast"):
+            pl = op_place(rv["op"])
+            if pl:
+                places.append(pl)
+        elif rv["k"] in ("ref", "discr"):
+            places.append(rv["p"])
+        for pl in places:
+            if pl["l"] == 1 and "closure" in [e.get("f") for e in pl.get("p", []) if isinstance(e, dict)]:
+                reads.append(st.get("ln"))
+    d = {"fn": FNCALL_TYPE_INFO, "reads_of_self_closure": reads}
+    chk.instance(rid, d, ok=bool(reads))
+    if not reads:
+        chk.violation(rid, b.file, FNCALL_TYPE_INFO, "closure effects not applied",
+                      "FunctionCall::type_info never looks at the call's closure: assignments the closure body makes to variables of the enclosing scope are "
+                      "invisible to the type checker (`b = \"s\"; for_each([1]) -> |_i, _v| { b = 2 }; upcase(b)` compiles and fails at run time)", detail=d)
